@@ -168,6 +168,16 @@ func init() {
 				p = genPlan(t, genOpts{chains: []string{"lbtc"}, sched: true, maxCrashes: 2, maxLN: 2, maxFaults: 2, restartMs: []int{500, 60000, 700000},
 					sites: []string{"lbtc.rpc.height", "ln.pay", "store.update"}, faultKinds: []string{"err", "stale", "errafter"}})
 			}
+			if rapid.IntRange(0, 3).Draw(t, "catching-up") == 0 {
+				// the taker's liquid back-end is catching up for a while: it reports a tip well
+				// below the one the swap was anchored at
+				from := pick(t, "cufrom", []int{2500, 8000, 20000, 60000})
+				p.Faults = append(p.Faults, world.Fault{Node: rapid.IntRange(0, 1).Draw(t, "cunode"), Site: "lbtc.rpc.height", Kind: "behind", Ms: pick(t, "cuback", []int{3, 100, 5000}),
+					FromMs: from, ToMs: from + pick(t, "culen", []int{15000, 60000, 300000})})
+				for i := range p.Scn.LiquidBackend {
+					p.Scn.LiquidBackend[i] = "elementsd"
+				}
+			}
 			p.Scn.LBlockEverySec = pick(t, "lblock", []int{2, 5, 20, 60})
 			n := rapid.IntRange(0, 3).Draw(t, "nbursts")
 			for i := 0; i < n; i++ {
